@@ -109,7 +109,7 @@ func (c *seqChecker) OnReply(w *World, op *Op) *Violation {
 	}
 	if err := exp.Match(op.Reply); err != nil {
 		return &Violation{Oracle: "reply", Step: w.step,
-			Fp:  "reply:" + replyFingerprint(before, sBefore, argv, exp, op.Reply),
+			Fp:  "reply:" + replyFingerprint(before, sBefore, argv, exp, op.Reply, c.m.now),
 			Msg: fmt.Sprintf("client %d command #%d %s: %v\nmodel state before: %s", op.Client, op.Idx, fmtArgs(argv), err, describeKeys(before, s, argv))}
 	}
 	if exp.Resolve != nil {
@@ -195,7 +195,7 @@ func describeObj(o *mObj) string {
 
 // replyFingerprint: command + type of the first key argument + classes of
 // expected and observed reply + a few relations between arguments.
-func replyFingerprint(m *Model, s *Sess, argv []string, exp Expect, got Value) string {
+func replyFingerprint(m *Model, s *Sess, argv []string, exp Expect, got Value, nowNs int64) string {
 	name := strings.ToLower(argv[0])
 	kt := "-"
 	if len(argv) > 1 {
@@ -217,9 +217,13 @@ func replyFingerprint(m *Model, s *Sess, argv []string, exp Expect, got Value) s
 	}
 	if name == "exec" && exp.Mode == exExact && exp.V.K == KNil && got.K == KArray {
 		// which watched keys made the model abort?
+		// (m is the state before the command: a watched key whose deadline has
+		// passed by the time of this EXEC counts as removed)
 		aba := true
 		for wk, v := range s.Watch {
-			if m.ver[wk] != v && !(s.WatchMiss[wk] && m.dbs[wk.db][wk.key] == nil) {
+			o := m.dbs[wk.db][wk.key]
+			gone := o == nil || (o.Exp != 0 && nowNs > o.Exp+o.Slack)
+			if (m.ver[wk] != v || gone) && !(s.WatchMiss[wk] && gone) {
 				aba = false
 			}
 		}
